@@ -35,7 +35,7 @@ of each table are certified, so a silently shrinking coverage breaks the build. 
 `IsDistance n H (min Lx (Ly·Lz))`; `Properties/C17RhombicToricCode.lean` (all `L_i` even `≥ 2`):
 `IsDistance n H (min Lx (min Ly Lz))`; `Properties/C17RhombicPlanarCode.lean` (`Lx, Ly ≥ 2`,
 `Lz ≥ 1`): `IsDistance n H (min (Lx·Ly + (Lx−1)(Ly−1)) Lz)`; `Properties/C17Color488Code.lean`
-(`Lx = Ly = L ≥ 1`): `IsDistance (8L²) H (2L)` — and `code.d` equals that value for every lattice
+(`Lx, Ly ≥ 1`): `IsDistance (8·Lx·Ly) H (min (2Lx) (2Ly))` — and `code.d` equals that value for every lattice
 size, by packing with lattice translates; the same for every DEFORMED code of these classes,
 through the generic `distance_deformation_invariant` below (a per-qubit permutation of {X, Y, Z}
 changes neither the distance nor the reported distance of ANY code).  Missing for the full
@@ -227,7 +227,7 @@ theorem coverage_Color666ToricCode :
     Generated.Color666ToricCode.certified.length = 4 ∧ Generated.Color666ToricCode.all.length = 4 := by
   decide +kernel
 theorem coverage_Color488Code :
-    Generated.Color488Code.certified.length = 6 ∧ Generated.Color488Code.all.length = 6 := by
+    Generated.Color488Code.certified.length = 36 ∧ Generated.Color488Code.all.length = 36 := by
   decide +kernel
 theorem coverage_Toric3DCode :
     Generated.Toric3DCode.certified.length = 27 ∧ Generated.Toric3DCode.all.length = 27 := by
